@@ -4,4 +4,7 @@ import GoNeat.Props.C05
 import GoNeat.Props.C06
 import GoNeat.Props.C07
 import GoNeat.Props.C07Exact
+import GoNeat.Props.C08
+import GoNeat.Props.C12
+import GoNeat.Props.C13
 import GoNeat.Props.C18
